@@ -99,6 +99,27 @@ def memo_rules(index: RepoIndex, rep, rule: str, eff, only_rel=None) -> None:
                   f'memoised {name} mutates {sorted(s.mut_params)} / writes '
                   f'{sorted(s.global_writes)}: later answers depend on earlier calls',
                   f'{name} pure')
+        # a key object with hand-written equality: what the body reads from it must be what the
+        # equality compares, or two different inputs share one cache entry
+        for a_ in fn.params():
+            ann = src(a_.annotation).strip("'\"") if a_.annotation is not None else ''
+            kc = index.find_class(ann.split('[')[0].split('.')[-1]) if ann else None
+            eqm = kc.methods.get('__eq__') if kc is not None else None
+            if eqm is None:
+                continue
+            compared = {n.attr for n in ast.walk(eqm.node) if isinstance(n, ast.Attribute)
+                        and isinstance(n.value, ast.Name)}
+            read = {n.attr for n in ast.walk(fn.node) if isinstance(n, ast.Attribute)
+                    and isinstance(n.value, ast.Name) and n.value.id == a_.arg
+                    and isinstance(n.ctx, ast.Load)}
+            methods_ = set(kc.methods)
+            missing = sorted(read - compared - methods_)
+            rep.check(not missing, rule, rel, fn.short, fn.node.lineno,
+                      f'{name}({a_.arg}: {kc.name})',
+                      f'memoised {name} reads `{a_.arg}.{missing[0] if missing else ""}`, which '
+                      f'{kc.name}.__eq__ does not compare: two inputs that differ there share one '
+                      f'cache entry (later answers depend on earlier calls)',
+                      f'{name}: key class {kc.name} compares what is read')
         draws = [e for e in eff.walks[eff.qual(fn)].events if e.kind == 'call'
                  and isinstance(e.node.func, ast.Attribute) and 'rng' in src(e.node.func.value)]
         rep.check(not draws, rule, rel, fn.short, fn.node.lineno, name,
